@@ -114,7 +114,7 @@ func histCheck(id, title string, force, crash int, explain string) *checkDef {
 				return fmt.Sprintf("one killed step (before/after any command; before, at truncation, at a proper prefix or after completion of any write of the cache file) in: every 2-step history of %d shapes and every 3-step history of the one-task shape; no --force, no cache removal", len(histShapes))
 			}
 			if tier == "thorough" {
-				return fmt.Sprintf("the quick bound (%d shapes of 1-2 tasks: every 2-step history with all features; 3-step histories with one feature family at a time), plus: 3-step histories of the two-file-tasks shape (plain, and with runner errors) and of the chain shape (with runner errors); the inductive step on all quick shapes and on two three-task shapes, also with stopped runs (runner error, missing dependency file) and commands that rewrite later tasks' inputs", len(histShapes))
+				return fmt.Sprintf("the quick bound (%d shapes of 1-2 tasks: every 2-step history with all features; 3-step histories with one feature family at a time), plus: 3-step histories of the two-file-tasks, shared-file, chain, glob-task, glob+file and three-chain shapes (plain), of file-task+no-dep-task with --force and with cache removal, of two-file-tasks and chain with runner errors; every 2-step history with all features of the three-tasks and three-chain shapes; every 4-step history with all features of the one-task shape; the inductive step on all quick shapes and on two three-task shapes, also with stopped runs (runner error, missing dependency file) and commands that rewrite later tasks' inputs", len(histShapes))
 			}
 			return fmt.Sprintf("%d spokfile shapes (1-2 tasks): every 2-step history with all features; 3-step histories with one feature family at a time (plain on 2 shapes; --force and cache removal on the one-task shape)", len(histShapes))
 		},
@@ -172,11 +172,17 @@ func histCheck(id, title string, force, crash int, explain string) *checkDef {
 				out = append(out, histJobsX(byName("two-file-tasks"), 3, 0, 0, 0, 1, 0)...)
 				out = append(out, histJobsX(byName("chain"), 3, 0, 0, 0, 1, 0)...)
 				out = append(out, histJobs(byName("two-file-tasks"), 3, 0, 0, 0)...)
-				// The first plan also had: every 2-step history of the three thorough shapes, 3-step
-				// histories of six more shape/feature combinations, 4-step histories of the
-				// one-task shape and 3-step histories of the three-task shapes. That set did not
-				// finish within its 75-minute cap (it was stopped after 32 minutes at the job
-				// above); what is registered here is what ran to completion.
+				// Each of the following was timed on its own before being registered (23 - 125 s).
+				// Left out because they did not finish within 300 s on their own: 3-step histories
+				// with --force of the chain and two-file-tasks shapes; because they were close to it:
+				// shared-file with --force (261 s), two-file-tasks with cache removal (281 s); not
+				// timed: 2-step histories of the two-globs shape, 3-step histories of three-tasks.
+				out = append(out, histJobs(byName("shared-file", "chain", "glob-task", "glob+file"), 3, 0, 0, 0)...)
+				out = append(out, histJobs(byName("file-task+no-dep-task"), 3, 1, 0, 0)...)
+				out = append(out, histJobs(byName("file-task+no-dep-task"), 3, 0, 0, 1)...)
+				out = append(out, histJobs(byName("three-tasks", "three-chain"), 2, 1, 0, 1)...)
+				out = append(out, histJobs(byName("three-chain"), 3, 0, 0, 0)...)
+				out = append(out, histJobs(byName("one-file-task"), 4, 1, 0, 1)...)
 			}
 			return out
 		},
